@@ -159,7 +159,33 @@ def check(rep):
     if rep.tier != "quick":
         from ..simpengine import random_trees
         pool = pool + [t for (t, _l) in random_trees(rep.seed, 300, 30, names=("x", "y", "long_name_2"))]
+    # every literal of the pool as a *direct child* of every kind of parent (a parent may print its
+    # children through str(), repr(), an f-string -- which is format(child, "") -- or a join) and
+    # inside a derivative object; the route the text takes must not matter
+    names = {c.name for c in model.concrete_expression_classes()}
+    literals = [t for t in pool if t[0] == "Constant"] + [("Constant", 0.123456789), ("Constant", 1234567),
+                                                          ("Constant", -7654321.5), ("Constant", 1 / 3)]
+    y = ("Variable", "y")
+    embedded = []
+    for c in literals:
+        for k in ("Negation", "Sine"):
+            if k in names:
+                embedded.append((k, c))
+        for k in ("NthPower", "Logarithm"):
+            if k in names:
+                embedded.append((k, c, 3))
+        for k in ("Minus", "Power"):
+            if k in names:
+                embedded += [(k, c, y), (k, y, c)]
+        for k in ("Add", "Multiply"):
+            if k in names:
+                embedded += [(k, [c]), (k, [y, c, x])]
+    pool = pool + embedded
     cases = [("expr", t) for t in pool] + [("point", p) for p in POINTS]
+    for c in literals[::3]:
+        for tree in (("Negation", c), ("Minus", x, c), ("Add", [x, c]), c):
+            cases += [("deriv", ("Differential", tree, None)), ("deriv", ("Partial", tree, "x")),
+                      ("deriv", ("LocatedDifferential", tree, {"x": 2}))]
     for tree in (x, sample_tree, ("NthRoot", x, 3), ("Logarithm", x, 2)):
         cases += [("deriv", ("Derivative", tree, None)) if len(spec.variables(tree)) == 1 else None,
                   ("deriv", ("Differential", tree, None)), ("deriv", ("Differential(early)", tree, None)),
